@@ -19,6 +19,15 @@ func init() {
 	}
 	share("C13", &RuleDoc{Name: "R-POOL-USE-AFTER-PUT", Text: "After a (non-deferred) sync.Pool.Put(buf), neither buf nor a slice obtained from buf.Bytes() is used again: the pooled buffer that holds an assembled frame/response is not recycled while it is still being written.", Run: rulePoolUseAfterPut})
 	share("C10", &RuleDoc{Name: "R-POOL-USE-AFTER-PUT", Text: "(shared with C13) no use of a pooled buffer or its bytes after it was put back.", Run: rulePoolUseAfterPut})
+	share("C01", &RuleDoc{Name: "R-POOL-USE-AFTER-PUT", Text: "(shared with C13) the transport adapters do not put a pooled frame buffer back before the frame has been written: a consumer's bytes cannot be overwritten by another consumer's packet.", Run: rulePoolUseAfterPut})
+	share("C09", &RuleDoc{Name: "R-POOL-USE-AFTER-PUT", Text: "(shared with C13) the TS writer keeps its pooled staging buffer until the frame's last TS packet has been cut from it.", Run: rulePoolUseAfterPut})
+	if p03 := properties["C03"]; p03 != nil {
+		for _, r := range p03.Rules {
+			if r.Name == "R-COUNT-ATOMIC" {
+				share("C05", &RuleDoc{Name: "R-COUNT-ATOMIC", Text: "(shared with C03) the consumer count the idle guard and the replace logic read cannot under-report: lookup, map change and count change are one critical section.", Run: r.Run})
+			}
+		}
+	}
 	share("C14", &RuleDoc{Name: "R-NO-SHORT-READ", Text: "Wire readers fill fixed-size buffers only through io.ReadFull / ReadLine / Peek - never a bare Read, which may return fewer bytes and leave the stream mid-message; the dispatcher peeks no more than the smallest complete unit (4 bytes).", Run: ruleNoShortRead})
 	share("C19", &RuleDoc{Name: "R-NO-SHORT-READ", Text: "(shared with C14) the prefix matchers read the sniff window with io.ReadFull, so routing does not depend on how the client's writes are segmented.", Run: ruleNoShortRead})
 	share("C19", &RuleDoc{Name: "R-SNIFF-SWITCH-AFTER-REPLAY", Text: "The sniffing reader switches to the raw connection (and drops its buffer) only on the path where the buffered bytes have been completely replayed and sniffing is over.", Run: ruleSniffSwitchAfterReplay})
@@ -53,7 +62,8 @@ func rulePoolUseAfterPut(c *Ctx) {
 	n := 0
 	// each property looks only at the packages that produce its output: a use-after-put in the RTSP
 	// writers says nothing about HLS and vice versa
-	scope := map[string][]string{"C10": {"av/format/hls", "service/hls"}, "C13": {"service/rtsp", "service/wsp", "av/format/rtsp", "av/format/rtp"}}[c.Prop]
+	scope := map[string][]string{"C10": {"av/format/hls", "service/hls"}, "C13": {"service/rtsp", "service/wsp", "av/format/rtsp", "av/format/rtp"},
+		"C01": {"service/rtsp", "service/wsp"}, "C09": {"av/format/mpegts"}}[c.Prop]
 	ord := map[string]int{}
 	for _, fn := range p.ModFuncs() {
 		if fn.Pkg == nil || !hasAnyPrefix(strings.TrimPrefix(fn.Pkg.Pkg.Path(), modPath+"/"), scope) {
